@@ -1,5 +1,6 @@
 import ZmqVerif.Props.C08
 import ZmqVerif.Lemmas.FQCons
+import ZmqVerif.Lemmas.WorldHist
 /-!
 # C14 — dropping a pending recv loses nothing and leaves the socket usable
 
@@ -52,5 +53,24 @@ theorem C14_fq_conservation_under_abandon (ops : List FQ.Op) (k : Nat) :
 
 /-- non-vacuity: a spurious poll from `parked` is a real transition of the model -/
 example : (FQ.step { pc := .parked } .pollStart).pc = .a := rfl
+
+/-- **Abandoned polls are just polls.**  One poll of ANY fair-queue `recv` future — freshly issued,
+polled before, or the successor of a future that was dropped while `Pending` (they are all the same
+value `.recv sid`, `C14_fq_recv_stateless`) — is a step of a receive history (`Step` + `RecvPost`).
+So `C05_world_exactly_once` / `C05_world_gone_prefix`, which hold for EVERY history of such steps
+and of arriving bytes, cover every way of abandoning `recv` calls at their suspension points:
+nothing is lost, duplicated or reordered, and the connection's reader carries on exactly behind
+what was consumed. -/
+theorem C14_world_any_poll_is_a_history_step (w : World) (sid : Nat) (s : Socket) (hs : getSock w sid = some s)
+    (hfq : hasFq s.typ = true) (hpd : PD s.fqStreams) (w' : World) (f' : FutSt) (o : POut)
+    (h : pollFut w (.recv sid) = (w', f', o)) :
+    ∃ s' c, getSock w' sid = some s' ∧ s'.typ = s.typ ∧ PD s'.fqStreams ∧
+      Step w.pipes s.fqStreams w'.pipes s'.fqStreams c ∧ RecvPost s.typ c o := by
+  simp only [pollFut] at h
+  generalize hr : recvPoll (recvFuel w sid) w sid = r at h
+  obtain ⟨w1, o1⟩ := r
+  simp only [Prod.mk.injEq] at h
+  obtain ⟨rfl, _, rfl⟩ := h
+  exact recvPoll_spec _ w sid s hs hfq hpd w1 o1 hr
 
 end Zmq.C14
